@@ -262,8 +262,15 @@ fn convert_case<E: Elem + Clone>(cols: usize, rows: usize, what: Conv, take: (u8
             for _ in 0..take.1 {
                 ensure!(it.next_back().map(|e| e.id()) == want.pop_back(), format!("{}/back", name), "into_iter().next_back() is out of row-major order");
             }
-            let rest: Vec<u64> = it.map(|e| e.id()).collect();
-            ensure!(rest == want.into_iter().collect::<Vec<_>>(), format!("{}/rest", name), "into_iter() remainder is out of row-major order");
+            // skipping from either end (nth / nth_back, as used by skip, step_by, rev)
+            let (a, b) = ((take.0 % 3) as usize, (take.1 % 3) as usize);
+            let w = if a < want.len() { want.drain(..a); want.pop_front() } else { want.clear(); None };
+            ensure!(it.nth(a).map(|e| e.id()) == w, format!("{}/nth", name), "into_iter().nth({}) is not the ideal sequence's element", a);
+            let w = if b < want.len() { let keep = want.len() - b; want.truncate(keep); want.pop_back() } else { want.clear(); None };
+            ensure!(it.nth_back(b).map(|e| e.id()) == w, format!("{}/nth_back", name), "into_iter().nth_back({}) is not the ideal sequence's element", b);
+            ensure!(it.len() == want.len(), format!("{}/len-after-nth", name), "into_iter().len() {} but {} remain", it.len(), want.len());
+            let rest: Vec<u64> = it.rev().map(|e| e.id()).collect();
+            ensure!(rest == want.into_iter().rev().collect::<Vec<_>>(), format!("{}/rest", name), "into_iter() remainder (reversed) is out of row-major order");
         }
         Conv::AsRefs => {
             let a: &[E] = t.as_ref();
